@@ -75,10 +75,22 @@ PrimCases(e) ==
      a \in UNION {UNION {UnitVar(S, o) \cup TwoVar(S, o) : o \in OrdersOp} :
                   S \in UNION {SupportsOn(g) : g \in (IF e.k = "X" /\ e.n >= 5 THEN {E4} ELSE GridsOp \cup {N5})}}}
 
+\* expressions that raise the power of x by four or more stay on the small grid
+\* (TLC's 32-bit integers; the offset grid has midpoints around 23)
+HighPower(e) == OutOrd(e, 0) >= 4
+\* sampled deeper expressions get a thinner operand set: every window of the
+\* small grid, two orders, one coefficient variant; four factor placements
+Core == Leaves \cup Depth1 \cup Depth2U \cup Named
+ExtraCases(e) ==
+  IF ~HasSpl(e)
+  THEN {[op |-> "OpApply", tag |-> "expr", ast |-> e, a |-> OneVar(S, o), fs |-> <<>>, fshare |-> 1] : S \in SupportsOn(E4), o \in {1, 3}}
+  ELSE {[op |-> "OpApply", tag |-> "expr", ast |-> e, a |-> OneVar(S, 1), fs |-> <<OneVar(F, 1)>>, fshare |-> 1] :
+          S \in SupportsOn(E4), F \in {Sup(E4, 0, 4), Sup(E4, 1, 3), Sup(E4, 0, 2), Sup(E4, 2, 4)}}
 ExprCases(e) ==
+  IF e \notin Core THEN ExtraCases(e) ELSE
   IF ~HasSpl(e)
   THEN {[op |-> "OpApply", tag |-> "expr", ast |-> e, a |-> a, fs |-> <<>>, fshare |-> 1] :
-          a \in UNION {UNION {TwoVar(S, o) : o \in OrdersOp} : S \in UNION {SupportsOn(g) : g \in GridsOp}}}
+          a \in UNION {UNION {TwoVar(S, o) : o \in OrdersOp} : S \in UNION {SupportsOn(g) : g \in (IF HighPower(e) THEN {E4} ELSE GridsOp)}}}
   ELSE {[op |-> "OpApply", tag |-> "expr", ast |-> e, a |-> OneVar(S, o), fs |-> <<f>>, fshare |-> sh] :
           S \in SupportsOn(E4), o \in {0, 2}, f \in Factors(E4), sh \in {1}}
        \cup {[op |-> "OpApply", tag |-> "expr", ast |-> e, a |-> OneVar(S, 1), fs |-> <<f>>, fshare |-> 0] :
